@@ -30,6 +30,13 @@ func TestMain(m *testing.M) {
 		}
 		return checkCase(&c, false)
 	})
+	stats.RegisterReplay("empty-path", func(raw json.RawMessage) error {
+		var c EmptyCase
+		if err := json.Unmarshal(raw, &c); err != nil {
+			return err
+		}
+		return checkEmpty(&c)
+	})
 	os.Exit(stats.Finish(m.Run()))
 }
 
@@ -552,4 +559,82 @@ func TestExhaustive(t *testing.T) {
 		}
 	}
 	rec(0, nil)
+}
+
+// ---------------------------------------------------------------- requests without any path
+
+// EmptyCase: a request whose URL path is the empty string (absolute-form target "GET http://host HTTP/1.1", authority-form
+// CONNECT) against a router whose only candidates are "/" routes: it differs from them by the trailing slash only.
+type EmptyCase struct {
+	GlobalTS int    `json:"global_ts"`
+	RouteTS  int    `json:"route_ts"`
+	Method   string `json:"method"`
+	Hosted   bool   `json:"hosted"` // the route is "h.example/" instead of "/"
+	Extra    bool   `json:"extra"`  // further routes below "/"
+}
+
+func checkEmpty(c *EmptyCase) error {
+	g := rt.Global{TS: c.GlobalTS}
+	pat := "/"
+	if c.Hosted {
+		pat = "h.example/"
+	}
+	specs := []rt.RouteSpec{{Method: c.Method, Pattern: pat, TS: c.RouteTS}}
+	if c.Extra {
+		specs = append(specs, rt.RouteSpec{Method: c.Method, Pattern: pat + "a"}, rt.RouteSpec{Method: c.Method, Pattern: pat + "{p}/b"})
+	}
+	r, err := rt.New(g, specs)
+	if err != nil || len(r.Routes) != len(specs) {
+		return fmt.Errorf("%+v: registration failed: %v", *c, err)
+	}
+	q := rt.Req{Method: c.Method, Host: "h.example", Path: ""}
+	desc := fmt.Sprintf("%+v: request %s host=%q with an empty path, only candidate %q: ", *c, c.Method, q.Host, pat)
+	mode := rt.EffectiveTS(g, specs[0])
+	sv := r.ServeReq(q)
+	if len(sv.Hits) != 1 {
+		return fmt.Errorf("%sServeHTTP ran %d handlers", desc, len(sv.Hits))
+	}
+	h := sv.Hits[0]
+	if mode == rt.TSIgnore && c.Method != http.MethodConnect {
+		if h.Kind != "route" || h.Pattern != pat {
+			return fmt.Errorf("%sthe route ignores trailing slashes, want it served; %s handler ran (status %d)", desc, h.Kind, sv.Code)
+		}
+	} else if h.Kind != "noroute" {
+		// no option: unmatched; redirect: the empty path is not in canonical form, so no redirect either; CONNECT: never adjusted
+		return fmt.Errorf("%swant the no-route handler (mode %d); %s handler ran (status %d, Location %q)", desc, mode, h.Kind, sv.Code, sv.Header.Get("Location"))
+	}
+	// every look-up entry point reports the same: the route, reachable by adding a slash
+	rtx := r.F.Txn(false)
+	defer rtx.Abort()
+	for name, o := range map[string]rt.Obs{"Router.Lookup": rt.DoLookup(r.F, q), "Txn.Lookup": rt.DoLookup(rtx, q)} {
+		if o.Pattern != pat || !o.Tsr {
+			return fmt.Errorf("%s%s returned %v, want %q with tsr=true", desc, name, o, pat)
+		}
+	}
+	return nil
+}
+
+func TestEmptyPath(t *testing.T) {
+	n := 0
+	for _, gts := range []int{rt.TSNone, rt.TSIgnore, rt.TSRedirect} {
+		for _, rts := range []int{0, rt.TSIgnore, rt.TSRedirect, rt.TSOff} {
+			for _, m := range []string{"GET", "POST", "CONNECT", "FOO"} {
+				for _, hosted := range []bool{false, true} {
+					for _, extra := range []bool{false, true} {
+						c := &EmptyCase{GlobalTS: gts, RouteTS: rts, Method: m, Hosted: hosted, Extra: extra}
+						stats.Eval()
+						stats.NonTrivial(fmt.Sprintf("empty|%+v", *c))
+						stats.Class("request-with-an-empty-path")
+						if n++; n%37 == 1 {
+							stats.Sample(c)
+						}
+						if err := checkEmpty(c); err != nil {
+							stats.Fail("empty-path", c, "%v", err)
+							t.Fatalf("%v", err)
+						}
+					}
+				}
+			}
+		}
+	}
 }
